@@ -281,3 +281,18 @@ Proof.
     + intros [A|[A B]]; [subst; split; [left; reflexivity|left; exact C]|split; [right; exact A|exact B]].
     + intros [[A|A] B]; [left; exact A|right; split; assumption].
 Qed.
+
+(* ---- the receiver's own transmit configuration is irrelevant to reception ---- *)
+Definition not_rxset (o : op) : bool := match o with RxSet _ => false | _ => true end.
+
+Theorem rxset_irrelevant : forall verify authic ops s,
+  fst (run verify authic s ops) = fst (run verify authic s (filter not_rxset ops)).
+Proof.
+  intros verify authic. induction ops as [|o ops IH]; intros s; [reflexivity|].
+  cbn [filter]. destruct (not_rxset o) eqn:E.
+  - cbn [run]. destruct (step verify authic s o) as [s' x]. specialize (IH s').
+    destruct (run verify authic s' ops) as [a b]. destruct (run verify authic s' (filter not_rxset ops)) as [a' b'].
+    cbn [fst] in *. exact IH.
+  - destruct o; try discriminate. cbn [run step]. specialize (IH s).
+    destruct (run verify authic s ops) as [a b]. cbn [fst] in *. exact IH.
+Qed.
